@@ -353,10 +353,69 @@ def thread_pass(ctx, shard=None):
         sys.setswitchinterval(old)
 
 
+def same_content_other_name(ctx):
+    """One workbook saved under several file names (copies of a template) and converted one after the other in one process: each conversion takes
+    its fallback id and title from its own file name; a setting given on the sheet wins every time."""
+    import os
+    import tempfile
+    from .. import xf
+    k = 0
+    for fmt in ("xlsx", "xls", "md", "csv"):
+        for given in ((), ("form_id",), ("form_title",), ("form_id", "form_title")):
+            for route in ("convert", "xls2xform_convert"):
+                k += 1
+                if not ctx.mine(k):
+                    continue
+                f = gen.simple_form([("text", "q1", {"label": "Q"})])
+                for g in given:
+                    f.settings[g] = f"given_{g}"
+                if not given:
+                    f.settings["version"] = "7"
+                data = render.render(f.to_sheets(), fmt)
+                raw = data.encode("utf-8") if isinstance(data, str) else data
+                d = tempfile.mkdtemp(prefix="verif_names_")
+                try:
+                    for stem in ("clinic_intake", "clinic_followup", "clinic_intake", "third_copy"):
+                        path = os.path.join(d, f"{stem}.{fmt}")
+                        with open(path, "wb") as fh:
+                            fh.write(raw)
+                        if route == "convert":
+                            o = drive.call_convert(path)
+                            xform = o.xform if o.ok else None
+                        else:
+                            from pyxform.xls2xform import xls2xform_convert
+                            out = os.path.join(d, f"{stem}.xml")
+                            try:
+                                xls2xform_convert(xlsform_path=path, xform_path=out, validate=False, pretty_print=False)
+                                xform = open(out, encoding="utf-8").read()
+                            except Exception as e:  # noqa: BLE001
+                                xform = None
+                                o = type("O", (), {"brief": lambda self, e=e: f"{type(e).__name__}: {e}"})()
+                        os.unlink(path)
+                        ctx.ctr("same_content_other_name_conversions")
+                        ctx.case(sig=f"names|{fmt}|{given}|{route}|{stem}")
+                        wit = common.witness(f, klass="names", fmt=fmt, route=route)
+                        if xform is None:
+                            ctx.viol("same-content:refused", f"{stem}.{fmt} ({route}): {o.brief()[:200]}", wit)
+                            continue
+                        p = xf.Parsed(xform)
+                        want_id = "given_form_id" if "form_id" in given else stem
+                        want_title = "given_form_title" if "form_title" in given else want_id
+                        got_id, got_title = p.primary.get("id"), (p.title.text or "")
+                        if got_id != want_id:
+                            ctx.viol("same-content:id-of-another-file-name", f"{stem}.{fmt} ({route}, converted after copies under other names): id {got_id!r}, expected {want_id!r}", wit)
+                        if got_title != want_title:
+                            ctx.viol("same-content:title-of-another-file-name", f"{stem}.{fmt} ({route}): title {got_title!r}, expected {want_title!r}", wit)
+                finally:
+                    import shutil
+                    shutil.rmtree(d, ignore_errors=True)
+
+
 def run_shard(ctx):
     if ctx.shard == 0:
         locale_children(ctx)
     thread_pass(ctx)
+    same_content_other_name(ctx)
     pl = plan(ctx.tier, ctx.seed)
     for i in range(pl["n"]):
         if not ctx.mine(i):
@@ -381,6 +440,9 @@ def replay(w):
     def chk(ctx, wit):
         if wit.get("klass") == "locale":
             locale_children(ctx)
+            return
+        if wit.get("klass") == "names":
+            same_content_other_name(ctx)
             return
         i = wit.get("i", 0)
         if wit.get("klass") == "threads" or i >= 50000:
